@@ -113,7 +113,7 @@ def make_jobs(ctx, n_prog, depth, unions):
 
 # ---- structured classes that INHERIT fields (the class generator has no inheritance): every flavour of slots x base
 INHERIT_SRC = """
-import dataclasses, typing
+import dataclasses, datetime, typing
 from typelib.py import classes
 @dataclasses.dataclass(slots=True)
 class SBase:
@@ -217,6 +217,26 @@ class KwTagged:
         return type(o) is type(self) and vars(o) == vars(self)
     def __repr__(self):
         return f"KwTagged({vars(self)})"
+class _Init:
+    def __eq__(self, o):
+        return type(o) is type(self) and self._vals() == o._vals()
+    def _vals(self):
+        return [(n, type(getattr(self, n)).__name__, getattr(self, n)) for n in self.NAMES]
+    def __repr__(self):
+        return f"{type(self).__name__}({self._vals()})"
+class Window(_Init):
+    NAMES = ("ident", "start", "span")
+    def __init__(self, ident: int, *, start: datetime.date = datetime.date(1, 1, 1), span: datetime.timedelta = datetime.timedelta(0)):
+        self.ident, self.start, self.span = ident, start, span
+class SlotWindow(_Init):
+    __slots__ = NAMES = ("ident", "tags", "day")
+    def __init__(self, ident: int, *, tags: typing.FrozenSet[str], day: typing.Optional[datetime.date] = None):
+        self.ident, self.tags, self.day = ident, tags, day
+PT = typing.TypeVar("PT")
+class Page(_Init, typing.Generic[PT]):
+    NAMES = ("ids", "total", "day", "cursor")
+    def __init__(self, ids: typing.List[int], total: int, day: datetime.date, cursor: typing.Optional[str] = None):
+        self.ids, self.total, self.day, self.cursor = ids, total, day, cursor
 """
 INHERIT_CASES = [("SChild", "SChild(7, 'n', ['a', 'b'], 'hello')"), ("DefChild", "DefChild(41, 'x')"), ("PChild", "PChild(5, 'five')"),
                  ("GrandChild", "GrandChild(1, 'g', [], 'n', 3)"), ("LibChild", "LibChild(2, 'two')"), ("HChild", "HChild(3, 'three')"),
@@ -227,7 +247,13 @@ INHERIT_CASES = [("SChild", "SChild(7, 'n', ['a', 'b'], 'hello')"), ("DefChild",
                  ("KwItem", "KwItem(name='1', tags=['null', '[1]'], note=None)"), ("KwTagged", "KwTagged('k', note='null', qty=2)"),
                  ("list[KwItem]", "[KwItem(name='true', tags=['1'], note=None)]"),
                  ("Inventory", "Inventory('bob', {'nut': 3, 'bolt': 4})"), ("Ledger", "Ledger('bob', {'owner': 'eve', 'k': 'v'})"),
-                 ("typing.Optional[Inventory]", "Inventory('bob', {'nut': 3})"), ("list[Inventory]", "[Inventory('amy', {'bolt': 4})]")]
+                 ("typing.Optional[Inventory]", "Inventory('bob', {'nut': 3})"), ("list[Inventory]", "[Inventory('amy', {'bolt': 4})]"),
+                 # members declared on the constructor only: keyword-only parameters, __slots__, a user generic
+                 ("Window", "Window(7)"), ("Window", "Window(7, start=datetime.date(2020, 2, 29), span=datetime.timedelta(days=2, microseconds=1))"),
+                 ("dict[str, list[Window]]", "{'a': [Window(1, start=datetime.date(9999, 12, 31))], 'b': []}"),
+                 ("SlotWindow", "SlotWindow(3, tags=frozenset({'x', 'null'}))"), ("SlotWindow", "SlotWindow(3, tags=frozenset(), day=datetime.date(2020, 1, 2))"),
+                 ("Page", "Page([1, 2], 3, datetime.date(2020, 1, 2))"), ("list[Page]", "[Page([], 0, datetime.date(1, 1, 1), 'c')]"),
+                 ("dict[str, Page]", "{'k': Page([5], 1, datetime.date(2021, 3, 4), 'null')}")]
 
 
 def _inherit_child(case):
